@@ -31,6 +31,8 @@ def gen(rng, tier):
     if rng.random() < 0.4:
         focus["res_abs"] = True
     spec = C.forward_spec(rng, tier, focus)
+    if rng.random() < 0.15:
+        spec["cfg"]["unit_time"] = rng.choice([2, 3])  # the clock advances by 2 or 3 per step; the accounting is per step
     if rng.random() < 0.3:
         spec["history"] = {"k": rng.randint(0, 8), "state": rng.random() < 0.5, "log": rng.random() < 0.5}
     elif rng.random() < 0.15:
@@ -184,6 +186,8 @@ def run(spec):
         o = D_.call(lambda: tr.project.insert_absence_time_list(list(spec["edit"])))
         steps_t = None
         tr.absence = set()  # after the edit, log indices no longer equal simulation times: absence steps are zero-cost anyway
+    if steps_t is None and spec["cfg"].get("unit_time", 1) != 1:
+        tr.absence = set()  # log index != clock value: rely on the logged ABSENCE states (zero charge) instead of the time list
     tot, n = check_logs(res, tr.project, tr.ix, tr.absence, exact, steps_t)
     for kind, groups in (("team", [(tm, tm.worker_list) for tm in tr.ix.teams]), ("workplace", [(wp, wp.facility_list) for wp in tr.ix.wps])):
         for g, members in groups:
